@@ -27,6 +27,16 @@ process only orchestrates):
                  oracle per call: high-water mark of simultaneously running tasks <= resolved n_jobs, distinct workers <= n_jobs,
                  live loky workers after the call <= n_jobs; the live-worker counts are also compared with the model of the
                  reusable executor's resize decision (`resize` request, theorem resize_worker_count_eq).
+* MEASURED, both tiers: HISTORIES of calls that name no backend on the ONE ThreadingBackend instance of a context — the instance a
+                 `with parallel_config(backend="threading")` block holds (level 0) and the nested instance BatchedCalls installs
+                 (level 1) for the tasks of a batch inside a thread, a loky and a multiprocessing worker (history in one task, or
+                 split over two tasks of one batch): plain calls and `with Parallel` blocks with growing / shrinking n_jobs,
+                 through n_jobs=1 and n_jobs=-1, plus the F55 shape (another Parallel call inside an open block).  Every call is
+                 measured with GATES (worker Gauge: tasks hold their worker until n_jobs are busy, then a further task gets the
+                 chance to start — waited for when the pool is known to be larger, a short grace otherwise); oracle per call:
+                 high-water mark <= resolved n_jobs, distinct worker threads <= n_jobs; the pool size each task saw
+                 (`_pool._processes`) and `_pool` after every call are compared with the model (`tpool` request, theorem
+                 thread_pool_exact; F55 = foreign_call_in_managed_block_counterexample, a known finding).
 * SUPPORTING, thorough tier only (measured, not proved): high-water mark of simultaneously running tasks
                  <= resolved n_jobs on threading and loky; pids / thread ids / backend classes for nests of depth 3 under
                  threading, loky and multiprocessing tops; worker environment (daemon, main thread, loky depth).
@@ -58,6 +68,10 @@ REQUIRED_THEOREMS = [
     "C15.nested_default_no_processes",
     "C15.resize_worker_count_eq",
     "C15.sequence_worker_count_eq",
+    "C15.thread_pool_exact",
+    "C15.thread_pool_sees_every_task",
+    "C15.kept_pool_counterexample",
+    "C15.foreign_call_in_managed_block_counterexample",
 ]
 TRUSTED_EXTRA = [
     "PARTIAL (DESIGN C15): that ThreadPool(n) / MemmappingPool(n) / loky's executor(max_workers=n) run at most n tasks at "
@@ -68,6 +82,9 @@ TRUSTED_EXTRA = [
     "_count_physical_cores for machine shapes this host does not have; process_executor._CURRENT_DEPTH set as an "
     "attribute; pool constructors replaced by recorders for the exhaustive grid; gc.collect stubbed",
     "nesting_level is an int when get_nested_backend runs (Parallel.__init__/_check_backend replace None); psutil absent",
+    "thread-pool histories (tRun): `ThreadPool(k)` has k worker threads and `_processes == k` (read by the measured tasks, "
+    "live threads recorded); one statement at a time per instance (the tasks of a batch run one after the other); "
+    "thread_pool_exact assumes `with Parallel` blocks that contain only their own calls - the other case is F55 (known finding)",
 ]
 
 WORKER_SRC = r'''
@@ -404,7 +421,95 @@ def job_sequence(job):
             out.append(dict(script=sc, calls=calls, error=type(e).__name__ + ": " + str(e)[:200]))
     return out
 
-JOBS = dict(sequence=job_sequence, cpu_real=job_cpu_real, cpu_mock=job_cpu_mock, eff=job_eff, nested=job_nested, nest=job_nest, highwater=job_highwater)
+# ---------------------------------------------------------------- histories of calls on ONE ThreadingBackend instance
+class Gauge:
+    """One call measured with gates (events), never with sleeps whose outcome depends on the machine's load: a task holds
+    its worker until all `r` workers of the call are busy (`full`), then gives a further task the chance to start (`over`):
+    for as long as it takes when the pool the call runs on is known to have more threads than `r` (such a task WILL start),
+    a short grace otherwise.  Load can only make the measurement miss an excess, never invent one."""
+    def __init__(self, r, inst, grace):
+        self.lock = threading.Lock(); self.active = 0; self.high = 0; self.tids = set(); self.sizes = set(); self.live = 0
+        self.r = r; self.inst = inst; self.grace = grace
+        self.full = threading.Event(); self.over = threading.Event(); self.done = threading.Event()
+    def task(self, i):
+        pool = getattr(self.inst, "_pool", None)
+        size = getattr(pool, "_processes", None)
+        live = len([t for t in (getattr(pool, "_pool", None) or []) if t.is_alive()])
+        with self.lock:
+            self.active += 1; self.high = max(self.high, self.active)
+            self.tids.add((os.getpid(), threading.get_ident())); self.sizes.add(size); self.live = max(self.live, live)
+            if self.active >= self.r: self.full.set()
+            if self.active > self.r: self.over.set()
+        if not self.done.is_set():
+            if size is None or size >= self.r:
+                self.full.wait(60)
+            self.over.wait(30 if (size is not None and size > self.r) else self.grace)
+            self.done.set()
+        with self.lock:
+            self.active -= 1
+        return i
+
+def pool_size(inst):
+    return getattr(getattr(inst, "_pool", None), "_processes", None)
+
+def history_slice(stmts, grace):
+    """Runs in the context under test (a block of a configuration context at top level, or a task of an outer call):
+    every Parallel below names no backend, i.e. goes through the context's backend INSTANCE."""
+    inst0 = Parallel()._backend
+    obs = []
+    def one(p, n_req, foreign, after_foreign=False):
+        inst = p._backend
+        r = call(inst.effective_n_jobs, p.n_jobs)
+        if not isinstance(r, int):
+            obs.append(dict(n=r, n_jobs=n_req, foreign=foreign, after_foreign=after_foreign)); return
+        g = Gauge(r, inst, grace); tasks = 2 * r + 1
+        try:
+            p(delayed(g.task)(i) for i in range(tasks))
+            err = None
+        except Exception as e:
+            err = type(e).__name__ + ": " + str(e)[:120]
+        obs.append(dict(n=int(r), n_jobs=n_req, foreign=foreign, after_foreign=after_foreign, tasks=tasks, high=g.high, workers=len(g.tids), live=g.live,
+                        sizes=sorted("-" if x is None else x for x in g.sizes), after=pool_size(inst0), same=inst is inst0,
+                        cls=LET.get(type(inst).__name__, "?"), level=inst.nesting_level, error=err))
+    for st in stmts:
+        if st["kind"] == "plain":
+            one(Parallel(n_jobs=st["n"]), st["n"], False)
+        else:
+            with Parallel(n_jobs=st["n"]) as p:
+                seen_foreign = False
+                for it in st["items"]:
+                    if "foreign" in it:
+                        one(Parallel(n_jobs=it["foreign"]), it["foreign"], True)
+                        seen_foreign = True
+                    else:
+                        one(p, st["n"], False, seen_foreign)
+    return dict(pid=os.getpid(), inst=id(inst0), cls=LET.get(type(inst0).__name__, "?"), level=inst0.nesting_level, obs=obs,
+                end=pool_size(inst0), main=isinstance(threading.current_thread(), threading._MainThread),
+                daemon=bool(mp.current_process().daemon), ldepth=process_executor._CURRENT_DEPTH)
+
+def job_history(job):
+    out = []
+    for run in job["runs"]:
+        stmts, nb = run["stmts"], run["batch"]
+        cut = [0, len(stmts)] if nb == 1 else [0, (len(stmts) + 1) // 2, len(stmts)]
+        parts = [stmts[a:b] for a, b in zip(cut, cut[1:])]
+        try:
+            if run["where"] == "context":
+                with parallel_config(backend="threading"):
+                    slices = [history_slice(pt, job["grace"]) for pt in parts]
+            else:
+                # ONE batch for the parts: its tasks run one after the other in one worker, under one nested backend
+                # instance.  Parallel cuts the LAST tasks of an input into smaller batches (load balancing), a full
+                # round of batch_size * n_jobs tasks is cut as asked: pad with empty parts up to a full round.
+                pad = [[]] * len(parts) if len(parts) > 1 else []
+                slices = Parallel(n_jobs=2, backend=run["where"], batch_size=len(parts))(
+                    delayed(history_slice)(pt, job["grace"]) for pt in parts + pad)[:len(parts)]
+            out.append(dict(run=run, slices=slices, mainpid=os.getpid()))
+        except Exception as e:
+            out.append(dict(run=run, slices=[], mainpid=os.getpid(), error=type(e).__name__ + ": " + str(e)[:200]))
+    return out
+
+JOBS = dict(history=job_history, sequence=job_sequence, cpu_real=job_cpu_real, cpu_mock=job_cpu_mock, eff=job_eff, nested=job_nested, nest=job_nest, highwater=job_highwater)
 if __name__ == "__main__":
     job = json.load(open(sys.argv[1]))
     res = JOBS[job["kind"]](job)
@@ -883,6 +988,160 @@ def finish_sequences(ctx, res, W, procs, replay_script):
             res.diverge(d["stream"], d, e, g)
 
 
+# ----------------------------------------------------------------------------- histories on one ThreadingBackend instance
+
+F55_SIG = "measured:more-tasks-at-once-than-n_jobs:foreign-call-inside-managed-block-sharing-the-context-backend"
+HIST_WHERE = ["context", "threading", "loky", "multiprocessing"]
+HIST_GRACE = 0.15
+# corpus: shrinking, growing, through n_jobs=1 (sequential fallback), managed blocks, n_jobs=-1 (= SEQ_CPUS), and the
+# interleaved shape of F55 (another Parallel call inside an open `with Parallel` block of the same instance)
+HIST_CORPUS = [
+    [dict(kind="plain", n=4), dict(kind="plain", n=2)],
+    [dict(kind="plain", n=2), dict(kind="plain", n=4), dict(kind="plain", n=1), dict(kind="plain", n=3)],
+    [dict(kind="managed", n=3, items=[{"own": 1}, {"own": 1}]), dict(kind="plain", n=2), dict(kind="plain", n=-1), dict(kind="plain", n=2)],
+    [dict(kind="managed", n=4, items=[{"own": 1}, {"foreign": 2}, {"own": 1}]), dict(kind="plain", n=3)],
+]
+
+
+def history_runs(ctx):
+    runs = []
+    nrand = 4 if ctx.thorough else 1
+    for w, where in enumerate(HIST_WHERE):
+        rng = ctx.rng("history/" + where)
+        hs = [list(h) for h in HIST_CORPUS]
+        for _ in range(nrand):
+            h = []
+            for _ in range(rng.choice([2, 3, 4])):
+                n = rng.choice([1, 2, 2, 3, 3, 4, 5, -1, -2, -4])
+                if rng.random() < 0.3:
+                    items = [{"own": 1} for _ in range(rng.choice([1, 2]))]
+                    if rng.random() < 0.25:
+                        items.insert(rng.randrange(len(items) + 1), {"foreign": rng.choice([2, 3, 5])})
+                    h.append(dict(kind="managed", n=n, items=items))
+                else:
+                    h.append(dict(kind="plain", n=n))
+            hs.append(h)
+        for i, h in enumerate(hs):
+            runs.append(dict(where=where, batch=1 + (i + w) % 2, stmts=h))
+    return runs
+
+
+def history_request(stmts, obs):
+    """The `tpool` request for the history, with the RESOLVED n_jobs and task counts the implementation reported."""
+    it = iter(obs)
+    toks = []
+    for st in stmts:
+        if st["kind"] == "plain":
+            o = next(it)
+            toks.append(f"P{o['n']}:{o['tasks']}")
+        else:
+            items, n = [], None
+            for x in st["items"]:
+                o = next(it)
+                if "foreign" in x:
+                    items.append(f"f{o['n']}x{o['tasks']}")
+                else:
+                    items.append(f"o{o['tasks']}")
+                    n = o["n"]
+            if n is None:
+                return None
+            toks.append(f"M{n}:" + ",".join(items))
+    return "tpool " + " ".join(toks)
+
+
+def judge_histories(res, out, requests, expected, descs):
+    for o in out:
+        run = o["run"]
+        base = dict(stream="nested-history", where=run["where"], batch=run["batch"], stmts=run["stmts"],
+                    env=dict(LOKY_MAX_CPU_COUNT=SEQ_CPUS))
+        if "error" in o:
+            res.fail("measured:history-raises", base, o["error"])
+            continue
+        obs = [x for sl in o["slices"] for x in sl["obs"]]
+        nested = run["where"] != "context"
+        for sl in o["slices"]:
+            want = ("T", 1) if nested else ("T", 0)
+            if (sl["cls"], sl["level"]) != want:
+                res.fail("nested:worker-default-is-" + sl["cls"], dict(base, observed=[sl["cls"], sl["level"]]), sl["cls"])
+            if run["where"] in ("loky", "multiprocessing") and sl["pid"] == o["mainpid"]:
+                raise core.InfraError("the outer %s call ran its task in the calling process" % run["where"])
+        res.nontrivial.add(("history", run["where"], run["batch"], json.dumps(run["stmts"], sort_keys=True)))
+        ok_model = len({(sl["pid"], sl["inst"]) for sl in o["slices"]}) == 1
+        for k, m in enumerate(obs):
+            res.evaluations += 1
+            res.count("history:" + run["where"] + (":foreign" if m["foreign"] else ":after-foreign" if m.get("after_foreign") else ""))
+            desc = dict(base, call_index=k, measured=m)
+            r = m["n"]
+            if not isinstance(r, int):
+                res.fail("measured:effective_n_jobs-raises", desc, r)
+                ok_model = False
+                continue
+            if m.get("error"):
+                res.fail("measured:history-call-raises", desc, m["error"])
+                ok_model = False
+            if m["n_jobs"] > 0 and r > m["n_jobs"]:
+                res.fail("effective_n_jobs:exceeds-positive-n_jobs", desc, r)
+            over = []
+            if m["high"] > r:
+                over.append("more-tasks-at-once-than-n_jobs")
+            if m["workers"] > r:
+                over.append("more-workers-than-n_jobs")
+            if over:
+                # F55 (known finding) is exactly: an open `with Parallel` block of the shared instance with a foreign call in
+                # it (the model's `TCall.clean` fails) - the foreign call runs on the block's pool, and the block's own later
+                # calls run on a pool rebuilt with the FOREIGN call's n_jobs; nothing outlives the block (its exit terminates)
+                sig = F55_SIG if (m["foreign"] or m.get("after_foreign")) else "measured:" + over[0]
+                res.fail(sig, desc, dict(n_jobs=r, highwater=m["high"], distinct_worker_threads=m["workers"], pool_sizes_seen=m["sizes"], evidence=over))
+            if r > 1 and m["high"] < min(r, 2):
+                res.count("history:call-never-ran-two-tasks-at-once")
+            if not m["same"]:
+                ok_model = False
+        if not ok_model:
+            res.count("history:not-one-instance(model comparison skipped)")
+            continue
+        rq = history_request(run["stmts"], obs)
+        if rq is None:
+            continue
+        requests.append(rq)
+        exp = " ".join("%d/%s/%s" % (m["n"], ",".join(str(x) for x in m["sizes"]) if m["sizes"] != ["-"] else ".", opt(m["after"])) for m in obs)
+        expected.append(exp + " end:" + opt(o["slices"][-1]["end"]))
+        descs.append(dict(base, stream="thread-pool-history", request=rq))
+
+
+def canon_tpool(reply):
+    """The model lists the pool size every task saw, the implementation side reports the SET of sizes per call."""
+    toks = []
+    for t in reply.strip().split():
+        parts = t.split("/")
+        if len(parts) == 3 and parts[1] != ".":
+            parts[1] = ",".join(str(x) for x in sorted({int(x) for x in parts[1].split(",")}))
+        toks.append("/".join(parts))
+    return " ".join(toks)
+
+
+def check_histories(ctx, res, W, replay_run=None):
+    """MEASURED, both tiers: histories of calls (plain, `with Parallel`, through n_jobs=1, growing / shrinking) on the ONE
+    ThreadingBackend instance of a context, at top level and at nesting level 1 inside thread / loky / multiprocessing workers."""
+    runs = [replay_run] if replay_run is not None else history_runs(ctx)
+    env = {"LOKY_MAX_CPU_COUNT": str(SEQ_CPUS)}
+    procs = []
+    for where in HIST_WHERE:
+        mine = [r for r in runs if r["where"] == where]
+        if mine:
+            procs.append(W.start(dict(kind="history", runs=mine, grace=HIST_GRACE), env=env))
+
+    def finish():
+        requests, expected, descs = [], [], []
+        for p in procs:
+            judge_histories(res, W.finish(p, timeout=600), requests, expected, descs)
+        replies = ctx.driver().run(requests) if requests else []
+        for d, e, g in zip(descs, expected, replies):
+            res.traces_validated += 1
+            if e != canon_tpool(g):
+                res.diverge(d["stream"], d, e, canon_tpool(g))
+    return finish
+
+
 def supporting(ctx, res, W):
     """Measured, not proved (thorough tier)."""
     notes = []
@@ -965,6 +1224,9 @@ def run(ctx):
         if case.get("stream") in ("sequence", "reusable-executor") and "script" in case:
             check_sequences(ctx, res, W, replay_script=case["script"])()
             return res
+        if case.get("stream") in ("nested-history", "thread-pool-history") and "stmts" in case:
+            check_histories(ctx, res, W, replay_run=dict(where=case["where"], batch=case["batch"], stmts=case["stmts"]))()
+            return res
         row = case.get("row")
         if row is None:
             raise core.InfraError("replay of this stream is not supported: rerun the check with the same VERIF_SEED")
@@ -975,10 +1237,12 @@ def run(ctx):
         res.evaluations += 1
         return res
     finish_seq = check_sequences(ctx, res, W)  # started first: runs alongside the exhaustive grid
+    finish_hist = check_histories(ctx, res, W)
     check_cpu(ctx, res, W)
     check_eff(ctx, res, W, host_cpus)
     check_nested(ctx, res, W)
     finish_seq()
+    finish_hist()
     if ctx.thorough:
         supporting(ctx, res, W)
     else:
